@@ -522,3 +522,52 @@ func recordIsDirOnPath(sh *kvShape, at *ssa.Call, moved ssa.Value) bool {
 	}
 	return false
 }
+
+
+// movePair: in a method of the key-value FS, a store of a loaded record under one name parameter that dominates the
+// delete of the name it was loaded from (the move of a regular file in Rename).
+type movePair struct{ store, del *ssa.Call }
+
+func movePairs(sh *kvShape, fn *ssa.Function) []movePair {
+	type w struct {
+		cl  *ssa.Call
+		del bool
+	}
+	var ws []w
+	ssax.Instrs(fn, func(ins ssa.Instruction) {
+		cl, ok := ins.(*ssa.Call)
+		if !ok {
+			return
+		}
+		callee := ssax.StaticCallee(cl)
+		pi, isSet := sh.setFns[callee]
+		if callee == nil || !isSet {
+			return
+		}
+		if _, isParam := cl.Call.Args[pi].(*ssa.Parameter); !isParam {
+			return
+		}
+		ws = append(ws, w{cl, ssax.IsNilConst(cl.Call.Args[pi+1])})
+	})
+	var out []movePair
+	for _, a := range ws {
+		for _, b := range ws {
+			if a.del || !b.del || !ssax.Dominates(a.cl, b.cl) {
+				continue
+			}
+			pa := a.cl.Call.Args[sh.setFns[ssax.StaticCallee(a.cl)]]
+			pb := b.cl.Call.Args[sh.setFns[ssax.StaticCallee(b.cl)]]
+			if pa == pb {
+				continue
+			}
+			if lp := sh.lookupPathOf(a.cl.Call.Args[sh.setFns[ssax.StaticCallee(a.cl)]+1], 0); lp == nil || lp != pb {
+				continue
+			}
+			if recordIsDirOnPath(sh, a.cl, pb) {
+				continue
+			}
+			out = append(out, movePair{a.cl, b.cl})
+		}
+	}
+	return out
+}
